@@ -52,6 +52,8 @@ impl DeleteVector {
             delete.encode_length_delimited(&mut data)?;
         }
         file.write_all(&data).await?;
+        // `tokio::fs::File` writes in the background: wait for the write and get its error
+        file.flush().await?;
         Ok(())
     }
 
